@@ -893,7 +893,11 @@ class TextXVisitor(RRELVisitor):
                             line,
                             col,
                         )
-                    rule = UnorderedGroup(nodes=expr.nodes)
+                    if expr.rule_name.startswith("__asgn"):
+                        # A bracketed group which holds a single assignment
+                        rule = UnorderedGroup(nodes=[expr])
+                    else:
+                        rule = UnorderedGroup(nodes=expr.nodes)
 
                 if modifiers:
                     modifiers, position = modifiers
